@@ -317,18 +317,14 @@ class TheoryOracle(walkers.DagWalker):
         theory_out = args[0]
         for t in args[1:]:
             theory_out = theory_out.combine(t)
-        # Check for non-linear
-        left, right = formula.args()
-        if len(left.get_free_variables()) != 0 and \
-           len(right.get_free_variables()) != 0:
+        # Check for non-linear: dividing by a non-constant term is
+        # non-linear, whatever the dividend is
+        right = formula.arg(1)
+        if len(right.get_free_variables()) != 0:
             theory_out = theory_out.set_linear(False)
-        elif formula.arg(1).is_zero():
+        elif right.is_zero():
             # DivBy0 is non-linear
             theory_out = theory_out.set_linear(False)
-        else:
-            theory_out = theory_out.combine(args[1])
-        return theory_out
-
         # This is  not in DL anymore
         theory_out = theory_out.set_difference_logic(False)
         return theory_out
